@@ -13,8 +13,9 @@ from mc.run import Stats, explore
 
 ASSUME = [
     "bases: the n=2 universe of C07 (all allocations incl. teams, all edge sets, all priority vectors over {500,700}, leave, daily limit) plus its project-ALAP variants; thorough adds the n=3 slice",
-    "intruder: priority 1, effort {1/2, 1, 3} slots, on r1 or r2, declared first / between / last, free or pinned to day 2 10:00",
+    "intruder: priority 1, effort {1/2, 1, 3} slots, on r1 or r2, declared first / between / last, free or pinned to day 2 10:00; plus special intruders (depending on a base task, task-level ALAP without deadline, milestone, 40 h effort) on one- and two-scenario variants of the unconstrained bases; all scenarios are compared",
     "precondition (checked, else skipped and counted): the project end is not extended in either run",
+    "in backward (ALAP) projects intruders that depend on a base task are not generated: there the added task is a successor whose start is its predecessor's deadline, which C04 requires to be honoured",
 ]
 
 
@@ -26,8 +27,8 @@ def bases(tier):
             for al in itertools.product(allocs, repeat=n):
                 for es in c07.edge_sets(n):
                     for pr in itertools.product((500, 700), repeat=n):
-                        for leave in (False, True):
-                            for lim in (None, ("r", "dailymax", "2h")):
+                        for leave, lim in ((False, None), (True, None), (False, ("r", "dailymax", "2h"))) + (((True, ("r", "dailymax", "2h")),) if tier != "quick" else ()):
+                            if True:
                                 yield {"n": n, "L": 60, "eff": 1.0, "ef": ef, "al": al, "es": es, "pr": pr, "gap": 0, "pin": None,
                                        "leave": leave, "lim": lim, "z": None, "alap": False}
                         yield {"n": n, "L": 60, "eff": 1.0, "ef": ef, "al": al, "es": es, "pr": pr, "gap": 0, "pin": None,
@@ -43,11 +44,28 @@ def intruders(tier):
                     yield {"m": m, "res": res, "pos": pos, "pin": pin}
 
 
+def special_intruders():
+    """intruders that depend on an existing task (nothing depends on THEM), ALAP without a deadline, milestones, huge effort"""
+    for res in ("r1", "r2"):
+        yield {"m": 60, "res": res, "pos": "last", "pin": None, "dep": True, "sched": "alap"}
+        yield {"m": 60, "res": res, "pos": "first", "pin": None, "dep": True, "sched": None}
+        yield {"m": 60, "res": res, "pos": "last", "pin": None, "dep": False, "sched": "alap"}
+        yield {"m": 0, "res": res, "pos": "mid", "pin": None, "dep": True, "sched": None}
+        yield {"m": 2400, "res": res, "pos": "last", "pin": None, "dep": False, "sched": None}
+
+
 def universe(tier):
     ins = list(intruders(tier))
+    sp = list(special_intruders())
     for b in bases(tier):
         for i in ins:
             yield {"base": b, "in": i}
+        if not b["leave"] and not b["lim"]:
+            for scen in (1, 2):
+                for i in sp:
+                    if b["alap"] and i["dep"]:
+                        continue  # in a backward project a dependent task is a successor: it legitimately sets its predecessor's deadline (C04)
+                    yield {"base": b, "in": i, "scen": scen}
 
 
 def specs(item):
@@ -57,6 +75,15 @@ def specs(item):
     withi = copy.deepcopy(base)
     i = item["in"]
     t = {"id": "zz", "effort": i["m"], "alloc": [i["res"]], "prio": 1}
+    if not i["m"]:
+        t = {"id": "zz", "milestone": True, "prio": 1}
+    if i.get("dep"):
+        t["deps"] = [base["tasks"][0]["id"]]
+    if i.get("sched"):
+        t["sched"] = i["sched"]
+    if item.get("scen") == 2:
+        base["scenarios"] = [("plan", [("s2", [])])]
+        withi["scenarios"] = [("plan", [("s2", [])])]
     if i["pin"]:
         t["start"] = i["pin"]
         if b["alap"]:
@@ -82,10 +109,11 @@ def evaluate(item):
     moved = False
     for t in o1["tasks"]:
         u = t2[t["id"]]
-        a = (t["sched"][0], t["start"][0], t["end"][0])
-        b = (u["sched"][0], u["start"][0], u["end"][0])
-        if a != b:
-            v.append(("disturbed", f"{t['id']}: alone {a}, with lowest-priority task zz {b}"))
+        for sc in range(o1["nsc"]):
+            a = (t["sched"][sc], t["start"][sc], t["end"][sc])
+            b = (u["sched"][sc], u["start"][sc], u["end"][sc])
+            if a != b:
+                v.append(("disturbed", f"{t['id']} (scenario {sc}): alone {a}, with lowest-priority task zz {b}"))
     zz = t2["zz"]
     # non-trivial: the intruder actually competes (shares a resource with a base task and got work or failed)
     r["nt"] = any(item["in"]["res"] in c07.ALLOCS[a] for a in item["base"]["al"])
